@@ -50,6 +50,7 @@ class Gen:
         self.r = rng
         self.atlas = atlas
         self.cited = []     # party names of full citations written so far
+        self.last_parties = None
         self.full = [g for g in atlas if g["form"] == "full" and g["x"]]
         self.short = [g for g in atlas if g["form"] == "short" and g["x"]]
         self.examples = [g for g in atlas if g["form"] == "example" and g["x"]]
@@ -127,11 +128,13 @@ class Gen:
                 s += f" ({self.pick(PARENS)})"
             return s
         s = core
+        self.last_parties = None
         if r.random() < 0.6:
             a, b = self.name(), self.name()
-            if r.random() < 0.1:
+            if r.random() < 0.15:
                 b = a           # "Smith v. Smith"
             self.cited.extend([a, b])
+            self.last_parties = (a, b, g)
             s = f"{a} v. {b}, {s}"
         elif r.random() < 0.2:
             a = self.name()
@@ -147,6 +150,24 @@ class Gen:
         if r.random() < 0.2:
             s += f" ({self.pick(PARENS)})"
         return s
+
+    def follow_up(self):
+        """A later mention of the case just cited in full: pin-cited reference,
+        bare name in prose, supra, short form, id."""
+        a, b, g = self.last_parties
+        name = a if self.r.random() < 0.5 else b
+        x = self.r.random()
+        if x < 0.30:
+            return f"{name} at {self.pick(['3', '17', '200'])}"
+        if x < 0.55:
+            return self.pick([f"the court in {name} rejected that view",
+                              f"as {name} makes clear",
+                              f"{name} controls here"])
+        if x < 0.70:
+            return f"{name}, supra, at {self.pin()}"
+        if x < 0.85 and g.get("form") == "full":
+            return f"{name}, {self.vol()} {g['rep']} at {self.page()}"
+        return f"Id. at {self.pin()}"
 
     def known_name(self):
         if self.cited and self.r.random() < 0.7:
@@ -190,6 +211,9 @@ class Gen:
             if mb and r.random() < mb_rate:
                 post = self.pick(["", "", " ", ","]) + self.pick(mb)
             parts.append(pre + item + post)
+            if getattr(self, "last_parties", None) and r.random() < 0.5:
+                parts.append(self.pick([". ", "; ", ". Later, ", ".\n"]) + self.follow_up())
+                self.last_parties = None
             sep = self.pick(["; ", ". ", ", ", " ", "\n", ".\n\n", " see ", "; see also "])
             if r.random() < 0.6:
                 sep += self.words(r.randrange(1, 8)) + self.pick([" ", ", ", ". ", "\n"])
